@@ -1177,3 +1177,32 @@ def entry_model(ob, max_len=3, seed=0):
     if s.check() != z3.sat:
         return None
     return s.model()
+
+
+def small_counter_model(ob, max_len=2, timeout_ms=8000):
+    """a counter-model of the obligation in which every list / row count is at most max_len and every quantified assumption is
+    instantiated on ALL positions 0..max_len-1: unlike the solver's first model (quantifiers instantiated on a few index terms only),
+    every element of every list then satisfies the precondition, which is what a replay on real objects needs"""
+    try:
+        base = full_assumptions(ob, timeout_ms)
+    except Exception:
+        base = list(ob.assumptions)
+    idx = [z3.IntVal(i) for i in range(max_len + 1)]
+    for q in ob.qfacts:
+        base += q.instances(idx)
+    s = z3.Solver()
+    s.set("timeout", timeout_ms)
+    s.add(*base)
+    s.add(z3.Not(ob.goal))
+    lens = {}
+    for t in list(base) + [ob.goal]:
+        for x in core.uninterp_apps(t):
+            nm = x.decl().name()
+            if (nm.startswith("len(") or nm.startswith("h.rows(") or nm.startswith("h.len(")) and x.num_args() == 1:
+                lens[x.get_id()] = x
+    for x in lens.values():
+        s.add(x >= 0, x <= max_len)
+    s.add(*core.list_axiom_instances(list(base) + [ob.goal]))
+    if s.check() != z3.sat:
+        return None
+    return s.model()
